@@ -105,6 +105,8 @@ def run(repo: Repo, rep: Report, tier: str) -> None:
     from ..core.report import Only
     from . import c16 as _c16
     _c16.run(repo, Only(rep, {"R16.1"}), tier)
+    from ..core import helper_contracts as _hc
+    _hc.report(repo, rep, "R07.7", _hc.field_default_contract(repo), "mashumaro.core.meta.code.builder::CodeBuilder.get_field_default")
 
 def _r07_4(repo: Repo, rep: Report, tier: str) -> None:
     fi = repo.func(M_BUILDER, "CodeBuilder._add_unpack_method_lines")
@@ -306,3 +308,6 @@ def _slice(sample, sl):
 _ADDENDUM = ' Borrowed: R16.1 (keys are spliced through repr: an alias with escapes or quotes is looked up verbatim).'
 EXPLANATION += _ADDENDUM
 LEVEL_TEXT += _ADDENDUM
+_ADD2 = ' R07.7: contract of get_field_default (Field.default, else the factory -- called only on request --, else the class attribute; MISSING means no default).'
+EXPLANATION += _ADD2
+LEVEL_TEXT += _ADD2
